@@ -37,6 +37,7 @@ static long target = -1;
 static int kind = 0;
 static long count = 0;
 static long fired = -1;
+static int kill_signal = SIGKILL;
 static struct entry log_buf[LOG_MAX];
 
 static ssize_t (*real_pwrite)(int, const void *, size_t, off_t);
@@ -69,7 +70,8 @@ void vshim_arm(const char *p, long at, int k)
     armed = 1;
 }
 
-void vshim_disarm(void) { armed = 0; }
+void vshim_disarm(void) { armed = 0; kill_signal = SIGKILL; }
+void vshim_set_signal(int sig) { kill_signal = sig; }
 long vshim_count(void) { return count; }
 long vshim_fired(void) { return fired; }
 int vshim_present(void) { return 1; }
@@ -132,10 +134,15 @@ static int decide(char call, char file, long size, long off)
     return 0;
 }
 
-static void die(void)
+/* SIGKILL never returns.  SIGTERM / SIGINT / SIGHUP normally do not either, but a
+ * tree that installs a handler survives: then the interrupted call goes on as
+ * if nothing had happened (that is what a handled signal is). */
+static int die(void)
 {
-    raise(SIGKILL);
-    for (;;) pause();
+    raise(kill_signal);
+    if (kill_signal == SIGKILL)
+        for (;;) pause();
+    return 0;
 }
 
 #define WRITE_BODY(CALLCH, REALCALL_FULL, REALCALL_HALF, OFF)                 \
@@ -145,9 +152,9 @@ static void die(void)
     case 1: errno = EIO; return -1;                                            \
     case 2: errno = ENOSPC; return -1;                                         \
     case 3: return REALCALL_HALF;                                              \
-    case 4: die();                                                             \
-    case 5: { ssize_t r = REALCALL_FULL; (void)r; die(); }                     \
-    case 6: { ssize_t r = REALCALL_HALF; (void)r; die(); }                     \
+    case 4: die(); return REALCALL_FULL;                                       \
+    case 5: { ssize_t r = REALCALL_FULL; die(); return r; }                    \
+    case 6: { ssize_t r = REALCALL_HALF; die(); return r; }                    \
     default: return REALCALL_FULL;                                             \
     }
 
@@ -175,8 +182,8 @@ ssize_t write(int fd, const void *buf, size_t n)
     switch (decide(CALLCH, f, (long)(SIZE), -1)) {                             \
     case 1: errno = EIO; return -1;                                            \
     case 2: errno = ENOSPC; return -1;                                         \
-    case 4: die();                                                             \
-    case 5: { int r = REALCALL; (void)r; die(); }                              \
+    case 4: die(); return REALCALL;                                            \
+    case 5: { int r = REALCALL; die(); return r; }                             \
     default: return REALCALL;                                                  \
     }
 
